@@ -7,6 +7,7 @@ import (
 	"strings"
 
 	"github.com/titpetric/vuego"
+	"golang.org/x/net/html"
 
 	"verif/engine/core"
 )
@@ -35,46 +36,50 @@ var c16Files = Files{
 	"s2.vuego": `<div><slot></slot></div><section><slot></slot></section>`,
 	"sf.vuego": `<ul><li v-for="i in three"><slot></slot></li></ul>`,
 
-	"n1.vuego":                 `<section>x</section><div v-once><u>N1W</u><style v-once>N1S</style></div>`,
-	"n2.vuego":                 `<span>y</span><div v-once><u>N2W</u><script v-once>N2S</script></div>`,
-	"p_nest.vuego":             `<div v-once><u>OW</u><b v-once>ON</b></div><i v-once>O1</i>`,
-	"p_nestfor.vuego":          `<div v-for="i in three"><div v-once><u>OW</u><p><b v-once>ON</b></p></div><i v-once>O1</i></div>`,
-	"p_nestcomp.vuego":         `<div v-for="i in three"><template include="n1.vuego"></template><template include="n2.vuego"></template></div><template include="n1.vuego"></template>`,
-	"tr.vuego":                 `<template><b v-once>OT</b><i>t</i></template><u v-once>OU</u>`,
-	"p_tmplroot.vuego":         `<template include="tr.vuego"></template><template include="tr.vuego"></template>`,
-	"p_tmplroot1.vuego":        `<div><template include="tr.vuego"></template></div>`,
-	"p_elseonce.vuego":         `<div v-for="i in three"><p v-if="i == 9">z</p><p v-else v-once>OE</p><p v-if="i == 9">z</p><p v-else-if="i < 5" v-once>OE2</p></div>`,
-	"p_forelseonce.vuego":      `<div v-for="i in three"><p v-for="x in none">x</p><p v-else v-once>OF</p></div>`,
-	"p_forifonce.vuego":        `<p v-for="i in three" v-if="i == 1" v-once>OG</p><p v-for="i in three" v-if="i > 0" v-once>OH</p><p v-for="i in three" v-if="i < 2" v-once>OK</p>`,
-	"p_many.vuego":             `<div v-for="i in three"><b v-once>M01</b><b v-once>M02</b><b v-once>M03</b><b v-once>M04</b><b v-once>M05</b><b v-once>M06</b><b v-once>M07</b><b v-once>M08</b><b v-once>M09</b><b v-once>M10</b><b v-once>M11</b><b v-once>M12</b></div><template include="many_c.vuego"></template><template include="many_c.vuego"></template>`,
-	"many_c.vuego":             `<i v-once>N01</i><i v-once>N02</i><i v-once>N03</i><i v-once>N04</i><i v-once>N05</i><i v-once>N06</i><i v-once>N07</i><i v-once>N08</i><i v-once>N09</i><i v-once>N10</i><i v-once>N11</i>`,
-	"p_strself.vuego":          `<em v-once>OZ</em><em v-once>OZ2</em>`,
-	"p_ifonce.vuego":           `<div v-for="i in three"><p v-once v-if="i == 1">OI</p></div>`,
-	"p_layslot.vuego":          "---\nlayout: once_slots\n---\n<template #side><p v-once>LA</p><p v-once>LB</p></template><i>body</i>",
-	"p_layslot2.vuego":         "---\nlayout: once_slots2\n---\n<template #head><style v-once>LC</style><b v-once>LD</b></template><i v-once>LG</i><template #foot><script v-once>LE</script><b v-once>LF</b></template>",
-	"layouts/once_slots2.vuego": `<html><head><slot name="head"></slot></head><body><div v-html="content"></div><footer><slot name="foot"></slot></footer></body></html>`,
-	"layouts/once_slots.vuego": `<main><aside><slot name="side"></slot></aside><div v-html="content"></div></main>`,
-	"p_elsefor.vuego":          `<p v-if="nope">p</p><b v-else v-for="i in three" v-once>OL1</b><p v-for="x in none">x</p><u v-else v-for="i in three" v-once>OL2</u><p v-if="nope">p</p><em v-else-if="t" v-for="i in three" v-once>OL3</em>`,
-	"c_elsefor.vuego":          `<ul><li v-if="nope">h</li><li v-else-if="t" v-for="i in three" v-once>OL4</li></ul>`,
-	"p_elsefor2.vuego":         `<template include="c_elsefor.vuego"></template><template include="c_elsefor.vuego"></template>`,
-	"tr2.vuego":                `<template v-once><b>OR</b></template><i>r</i>`,
-	"p_tmplonce.vuego":         `<template include="tr2.vuego"></template><template include="tr2.vuego"></template><div v-for="i in three"><template include="tr2.vuego"></template></div>`,
-	"p_top.vuego":              `<b v-once>O1</b><p>x</p><b v-once>O2</b><b v-once>O3</b>`,
-	"p_for.vuego":              `<div v-for="i in three"><b v-once>O1</b><i>{{ i }}</i><u v-once>O2</u></div>`,
-	"p_forself.vuego":          `<b v-for="i in three" v-once>O1</b><i v-for="j in three">I</i>`,
-	"p_inc1.vuego":             `<template include="a.vuego"></template>`,
-	"p_inc2.vuego":             `<template include="a.vuego"></template><template include="a.vuego"></template>`,
-	"p_inc3.vuego":             `<template include="a.vuego"></template><p v-once>O1</p><template include="a.vuego"></template><template include="a.vuego"></template>`,
-	"p_ab.vuego":               `<template include="a.vuego"></template><template include="b.vuego"></template><template include="a.vuego"></template><b v-once>O1</b>`,
-	"p_incfor.vuego":           `<div v-for="i in three"><template include="a.vuego"></template></div>`,
-	"p_nested.vuego":           `<template include="ac.vuego"></template><template include="ac.vuego"></template><template include="c.vuego"></template>`,
-	"p_slot1.vuego":            `<template include="s1.vuego"><b v-once>OS</b></template><b v-once>O1</b>`,
-	"p_slot2.vuego":            `<template include="s2.vuego"><b v-once>OS</b></template>`,
-	"p_slotfor.vuego":          `<template include="sf.vuego"><template v-slot><b v-once>OS</b></template></template>`,
-	"p_if.vuego":               `<div v-if="t"><b v-once>O1</b></div><div v-else><b v-once>O2</b></div><b v-if="t" v-once>O3</b>`,
-	"p_lay.vuego":              "---\nlayout: once_lay\n---\n<b v-once>O1</b><template include=\"a.vuego\"></template><template include=\"a.vuego\"></template>",
-	"layouts/once_lay.vuego":   "---\nlayout: once_outer\n---\n<main><b v-once>OL</b><template include=\"a.vuego\"></template><div v-for=\"i in three\"><u v-once>OL2</u></div><section v-html=\"content\"></section></main>",
-	"layouts/once_outer.vuego": "<html><body><b v-once>OO</b><template include=\"a.vuego\"></template><template include=\"a.vuego\"></template><div v-html=\"content\"></div></body></html>",
+	"n1.vuego":                      `<section>x</section><div v-once><u>N1W</u><style v-once>N1S</style></div>`,
+	"n2.vuego":                      `<span>y</span><div v-once><u>N2W</u><script v-once>N2S</script></div>`,
+	"p_nest.vuego":                  `<div v-once><u>OW</u><b v-once>ON</b></div><i v-once>O1</i>`,
+	"p_nestfor.vuego":               `<div v-for="i in three"><div v-once><u>OW</u><p><b v-once>ON</b></p></div><i v-once>O1</i></div>`,
+	"p_nestcomp.vuego":              `<div v-for="i in three"><template include="n1.vuego"></template><template include="n2.vuego"></template></div><template include="n1.vuego"></template>`,
+	"tr.vuego":                      `<template><b v-once>OT</b><i>t</i></template><u v-once>OU</u>`,
+	"p_tmplroot.vuego":              `<template include="tr.vuego"></template><template include="tr.vuego"></template>`,
+	"p_tmplroot1.vuego":             `<div><template include="tr.vuego"></template></div>`,
+	"p_elseonce.vuego":              `<div v-for="i in three"><p v-if="i == 9">z</p><p v-else v-once>OE</p><p v-if="i == 9">z</p><p v-else-if="i < 5" v-once>OE2</p></div>`,
+	"p_forelseonce.vuego":           `<div v-for="i in three"><p v-for="x in none">x</p><p v-else v-once>OF</p></div>`,
+	"p_forifonce.vuego":             `<p v-for="i in three" v-if="i == 1" v-once>OG</p><p v-for="i in three" v-if="i > 0" v-once>OH</p><p v-for="i in three" v-if="i < 2" v-once>OK</p>`,
+	"p_many.vuego":                  `<div v-for="i in three"><b v-once>M01</b><b v-once>M02</b><b v-once>M03</b><b v-once>M04</b><b v-once>M05</b><b v-once>M06</b><b v-once>M07</b><b v-once>M08</b><b v-once>M09</b><b v-once>M10</b><b v-once>M11</b><b v-once>M12</b></div><template include="many_c.vuego"></template><template include="many_c.vuego"></template>`,
+	"many_c.vuego":                  `<i v-once>N01</i><i v-once>N02</i><i v-once>N03</i><i v-once>N04</i><i v-once>N05</i><i v-once>N06</i><i v-once>N07</i><i v-once>N08</i><i v-once>N09</i><i v-once>N10</i><i v-once>N11</i>`,
+	"p_samebase.vuego":              `<template include="components/forms/Button.vuego"></template><template include="components/nav/Button.vuego"></template><template include="components/forms/Button.vuego"></template><template include="components/nav/Button.vuego"></template>`,
+	"components/forms/Button.vuego": `<style v-once>BF</style><button>f</button>`,
+	"components/nav/Button.vuego":   `<style v-once>BN</style><button>n</button>`,
+	"p_strself.vuego":               `<em v-once>OZ</em><em v-once>OZ2</em>`,
+	"p_ifonce.vuego":                `<div v-for="i in three"><p v-once v-if="i == 1">OI</p></div>`,
+	"p_layslot.vuego":               "---\nlayout: once_slots\n---\n<template #side><p v-once>LA</p><p v-once>LB</p></template><i>body</i>",
+	"p_layslot2.vuego":              "---\nlayout: once_slots2\n---\n<template #head><style v-once>LC</style><b v-once>LD</b></template><i v-once>LG</i><template #foot><script v-once>LE</script><b v-once>LF</b></template>",
+	"layouts/once_slots2.vuego":     `<html><head><slot name="head"></slot></head><body><div v-html="content"></div><footer><slot name="foot"></slot></footer></body></html>`,
+	"layouts/once_slots.vuego":      `<main><aside><slot name="side"></slot></aside><div v-html="content"></div></main>`,
+	"p_elsefor.vuego":               `<p v-if="nope">p</p><b v-else v-for="i in three" v-once>OL1</b><p v-for="x in none">x</p><u v-else v-for="i in three" v-once>OL2</u><p v-if="nope">p</p><em v-else-if="t" v-for="i in three" v-once>OL3</em>`,
+	"c_elsefor.vuego":               `<ul><li v-if="nope">h</li><li v-else-if="t" v-for="i in three" v-once>OL4</li></ul>`,
+	"p_elsefor2.vuego":              `<template include="c_elsefor.vuego"></template><template include="c_elsefor.vuego"></template>`,
+	"tr2.vuego":                     `<template v-once><b>OR</b></template><i>r</i>`,
+	"p_tmplonce.vuego":              `<template include="tr2.vuego"></template><template include="tr2.vuego"></template><div v-for="i in three"><template include="tr2.vuego"></template></div>`,
+	"p_preonce.vuego":               `<div v-for="i in three"><u class="auto">PA</u><b v-once>PB</b><u class="auto">PC</u></div><u class="auto">PD</u>`,
+	"p_top.vuego":                   `<b v-once>O1</b><p>x</p><b v-once>O2</b><b v-once>O3</b>`,
+	"p_for.vuego":                   `<div v-for="i in three"><b v-once>O1</b><i>{{ i }}</i><u v-once>O2</u></div>`,
+	"p_forself.vuego":               `<b v-for="i in three" v-once>O1</b><i v-for="j in three">I</i>`,
+	"p_inc1.vuego":                  `<template include="a.vuego"></template>`,
+	"p_inc2.vuego":                  `<template include="a.vuego"></template><template include="a.vuego"></template>`,
+	"p_inc3.vuego":                  `<template include="a.vuego"></template><p v-once>O1</p><template include="a.vuego"></template><template include="a.vuego"></template>`,
+	"p_ab.vuego":                    `<template include="a.vuego"></template><template include="b.vuego"></template><template include="a.vuego"></template><b v-once>O1</b>`,
+	"p_incfor.vuego":                `<div v-for="i in three"><template include="a.vuego"></template></div>`,
+	"p_nested.vuego":                `<template include="ac.vuego"></template><template include="ac.vuego"></template><template include="c.vuego"></template>`,
+	"p_slot1.vuego":                 `<template include="s1.vuego"><b v-once>OS</b></template><b v-once>O1</b>`,
+	"p_slot2.vuego":                 `<template include="s2.vuego"><b v-once>OS</b></template>`,
+	"p_slotfor.vuego":               `<template include="sf.vuego"><template v-slot><b v-once>OS</b></template></template>`,
+	"p_if.vuego":                    `<div v-if="t"><b v-once>O1</b></div><div v-else><b v-once>O2</b></div><b v-if="t" v-once>O3</b>`,
+	"p_lay.vuego":                   "---\nlayout: once_lay\n---\n<b v-once>O1</b><template include=\"a.vuego\"></template><template include=\"a.vuego\"></template>",
+	"layouts/once_lay.vuego":        "---\nlayout: once_outer\n---\n<main><b v-once>OL</b><template include=\"a.vuego\"></template><div v-for=\"i in three\"><u v-once>OL2</u></div><section v-html=\"content\"></section></main>",
+	"layouts/once_outer.vuego":      "<html><body><b v-once>OO</b><template include=\"a.vuego\"></template><template include=\"a.vuego\"></template><div v-html=\"content\"></div></body></html>",
 }
 
 var c16Progs = []c16Prog{
@@ -101,12 +106,14 @@ var c16Progs = []c16Prog{
 	{"ifonce", "p_ifonce.vuego", map[string]int{"OI": 1}, nil, "", nil},
 	{"strself", "p_strself.vuego", map[string]int{"OZ": 1, "OZ2": 1}, nil, `<b v-once>OX</b><template include="p_strself.vuego"></template><b v-once>OY</b><template include="p_strself.vuego"></template>`, map[string]int{"OX": 1, "OY": 1, "OZ": 1, "OZ2": 1}},
 	{"many", "p_many.vuego", map[string]int{"M01": 1, "M02": 1, "M03": 1, "M04": 1, "M05": 1, "M06": 1, "M07": 1, "M08": 1, "M09": 1, "M10": 1, "M11": 1, "M12": 1, "N01": 1, "N02": 1, "N03": 1, "N04": 1, "N05": 1, "N06": 1, "N07": 1, "N08": 1, "N09": 1, "N10": 1, "N11": 1}, nil, "", nil},
+	{"samebase", "p_samebase.vuego", map[string]int{"BF": 1, "BN": 1}, nil, "", nil},
 	{"forifonce", "p_forifonce.vuego", map[string]int{"OG": 1, "OH": 1, "OK": 1}, nil, "", nil},
 	{"layslot", "p_layslot.vuego", nil, map[string]int{"LA": 1, "LB": 1}, "", nil}, // in the layout slot (not a second time in the page content)
 	{"layslot2", "p_layslot2.vuego", nil, map[string]int{"LC": 1, "LD": 1, "LE": 1, "LF": 1, "LG": 1}, "", nil},
 	{"elsefor", "p_elsefor.vuego", map[string]int{"OL1": 1, "OL2": 1, "OL3": 1}, nil, "", nil},
 	{"elsefor2", "p_elsefor2.vuego", map[string]int{"OL4": 1}, nil, "", nil},
 	{"tmplonce", "p_tmplonce.vuego", map[string]int{"OR": 1}, nil, "", nil},
+	{"preonce", "p_preonce.vuego", map[string]int{"PA": 1, "PB": 1, "PC": 1, "PD": 1}, nil, "", nil}, // class="auto" is marked v-once by the processor's PreProcess
 	{"lay", "p_lay.vuego", map[string]int{"O1": 1, "OA": 1}, map[string]int{"OL": 1, "OL2": 1, "OO": 1, "OA": 2}, "", nil},
 }
 
@@ -126,7 +133,36 @@ type c16Case struct {
 
 func (c *c16Case) Key() string { return core.KeyOf(c) }
 
-var c16Markers = []string{"LC", "LD", "LE", "LF", "LG", "M01", "M02", "M03", "M04", "M05", "M06", "M07", "M08", "M09", "M10", "M11", "M12", "N01", "N02", "N03", "N04", "N05", "N06", "N07", "N08", "N09", "N10", "N11", "OX", "OY", "OZ2", "OZ", "OG", "OH", "OK", "OR", "OL1", "OL2", "OL3", "OL4", "OE2", "OE", "OF", "OI", "LA", "LB", "OT", "OU", "OW", "ON", "N1W", "N1S", "N2W", "N2S", "O1", "O2", "O3", "OA", "OB2", "OB", "OC", "OAC", "OS", "OL2", "OL", "OO"}
+var c16Markers = []string{"PA", "PB", "PC", "PD", "BF", "BN", "LC", "LD", "LE", "LF", "LG", "M01", "M02", "M03", "M04", "M05", "M06", "M07", "M08", "M09", "M10", "M11", "M12", "N01", "N02", "N03", "N04", "N05", "N06", "N07", "N08", "N09", "N10", "N11", "OX", "OY", "OZ2", "OZ", "OG", "OH", "OK", "OR", "OL1", "OL2", "OL3", "OL4", "OE2", "OE", "OF", "OI", "LA", "LB", "OT", "OU", "OW", "ON", "N1W", "N1S", "N2W", "N2S", "O1", "O2", "O3", "OA", "OB2", "OB", "OC", "OAC", "OS", "OL2", "OL", "OO"}
+
+// c16Proc is registered on every engine: its pre-processing step marks elements of class "auto"
+// with v-once (a processor that de-duplicates injected assets would do this).
+type c16Proc struct{}
+
+func (c16Proc) New() vuego.NodeProcessor             { return c16Proc{} }
+func (c16Proc) PostProcess(nodes []*html.Node) error { return nil }
+func (c16Proc) PreProcess(nodes []*html.Node) error {
+	var walk func(n *html.Node)
+	walk = func(n *html.Node) {
+		if n.Type == html.ElementNode {
+			auto, once := false, false
+			for _, a := range n.Attr {
+				auto = auto || (a.Key == "class" && a.Val == "auto")
+				once = once || a.Key == "v-once"
+			}
+			if auto && !once {
+				n.Attr = append(n.Attr, html.Attribute{Key: "v-once"})
+			}
+		}
+		for c := n.FirstChild; c != nil; c = c.NextSibling {
+			walk(c)
+		}
+	}
+	for _, n := range nodes {
+		walk(n)
+	}
+	return nil
+}
 
 func c16Count(out string) map[string]int {
 	m := map[string]int{}
@@ -140,8 +176,9 @@ func c16Count(out string) map[string]int {
 func (c *c16Case) Run(ctx *core.Ctx) {
 	ctx.NonTrivial()
 	data := map[string]any{"three": []int{0, 1, 2}, "t": true, "none": []int{}}
-	tpl := vuego.NewFS(c16Files.FS())
+	tpl := vuego.NewFS(c16Files.FS(), vuego.WithProcessor(c16Proc{}))
 	vue := vuego.NewVue(c16Files.FS())
+	vue.RegisterNodeProcessor(c16Proc{})
 	for i, name := range c.Seq {
 		p := c16Prog_(name)
 		var buf bytes.Buffer
@@ -218,7 +255,7 @@ func init() {
 	core.Register(&core.Check{
 		ID:    "C16",
 		Level: "model_checking",
-		Rule: "30 placements of 1-4 v-once elements (v-once nested inside v-once at top level, in a loop and in two components included from a loop, in a component whose root is a <template> tag (inside, on and after it), on v-else / v-else-if members and on the v-else of an empty v-for inside a loop, together with v-if, together with v-for and a v-if that is false for the first item, on chain members that are loops themselves, in slot content a page hands to its layout (one and two slot templates), top level, inside v-for, on the looped element itself, in a component included 1..3 times, in two different components, in a component included from a loop, nested components, slot content used once / twice / in a loop, v-if branches, page + two layouts each including the same component, twelve v-once elements in one file (IDs of more than one digit), a string template rendered on a template object that has loaded the very file the string includes) x 7 entry points (Load+Render, RenderFile, Vue.Render, Vue.RenderFragment, RenderString/Byte/Reader) x every history of <=L renders on one long-lived engine; " +
+		Rule: "32 placements of 1-4 v-once elements (v-once nested inside v-once at top level, in a loop and in two components included from a loop, in a component whose root is a <template> tag (inside, on and after it), on v-else / v-else-if members and on the v-else of an empty v-for inside a loop, together with v-if, together with v-for and a v-if that is false for the first item, on chain members that are loops themselves, in slot content a page hands to its layout (one and two slot templates), top level, inside v-for, on the looped element itself, in a component included 1..3 times, in two different components, in two components whose files have the same name in different directories, in a component included from a loop, nested components, slot content used once / twice / in a loop, v-if branches, page + two layouts each including the same component, twelve v-once elements in one file (IDs of more than one digit), a string template rendered on a template object that has loaded the very file the string includes, elements a node processor marks v-once in its pre-processing step (the page's nodes: components are not pre-processed)) x 7 entry points (Load+Render, RenderFile, Vue.Render, Vue.RenderFragment, RenderString/Byte/Reader) x every history of <=L renders on one long-lived engine; " +
 			"oracle: every marked source element occurs exactly once per render (per link of a layout chain), unreached ones zero times. states = renders checked; non-trivial = all",
 		Bounds:      map[string]string{"quick": "L=2 (all ordered pairs of programs)", "thorough": "L=3 (all ordered triples)"},
 		Assumptions: []string{"markers are counted textually as >MARK< in the output"},
